@@ -16,8 +16,9 @@ func init() {
 		Title: "Every balance strategy yields a valid partition assignment",
 		Explain: "PARTIAL: completeness and uniqueness of a plan are algorithmic and not decided. Decided are the eligibility guards that are necessary for 'only to a member subscribed to that topic, no unknown member, no nonexistent partition': round-robin adds a partition to a member only under hasTopic; the sticky strategy assigns/reassigns a partition to a member only if it is among that member's potential partitions, keeps a prior ownership only if the partition still exists and its owner still subscribes to the topic (otherwise it becomes unassigned), registers every current member in the assignment and emits an entry for every member; the range strategy builds a topic's member list only from the members' own subscriptions and hands each topic its own partition list. " +
 			"Shared with C13 for the range strategy's exactly-once clause: member i gets partitions[f(i):f(i+1)] for one and the same rounding expression f, so that consecutive slices tile the topic without gap or overlap even where floating-point rounding is involved (C13.range-telescoping). " +
+			"The partition lists consumerGroup.balance hands to Plan are Client.Partitions: the client builds them, per topic and per set, from setPartitionCache — sorted, duplicate-free, never one list filtered in place out of the other (C15.pair, C15.sorted-writable, shared: a list with a duplicate and an omission makes every strategy assign one partition twice and another to nobody). " +
 			"NOT covered: that every partition is assigned, and to exactly one member, by the sticky strategy; balance (C13).",
-		Rules: []func(*Ctx){c08Rules, c13Range, c08ErrLost, c13MovementsPerPlan, c08OwnedPotentialLists, c08EveryUnassignedOffered, c13MovementBookkeeping, c08TopicsOfEveryMember, c08FixedRestoredLast},
+		Rules: []func(*Ctx){c08Rules, c13Range, c08ErrLost, c13MovementsPerPlan, c08OwnedPotentialLists, c08EveryUnassignedOffered, c13MovementBookkeeping, c08TopicsOfEveryMember, c08FixedRestoredLast, c15Pair, c15SortedWritable},
 	})
 }
 
